@@ -121,6 +121,8 @@ class Layout:
     comma_space: str = ' '
     eq_space: str = ' '
     wrap_rhs: bool = False         # (rhs) with a line break after every top-level binary operator
+    inner_blank: bool = False      # with wrap_rhs: blank / whitespace-only / comment-only lines between the physical
+                                   # lines of one statement (while its parenthesis is still open)
     comment: bool = False          # trailing comment on each statement
     blank_lines: int = 0           # blank / comment-only lines between statements
     vary: bool = False             # draw each spacing independently from rng at every site
@@ -139,7 +141,8 @@ def random_layout(rng):
                   index_space=rng.choice(['', ' ', '  ']), explicit_zero=rng.random() < 0.4,
                   plus_sign=rng.random() < 0.4, call_space=rng.choice(['', ' ', '  ']),
                   paren_space=rng.choice(['', ' ']), comma_space=rng.choice(['', ' ', '  ']),
-                  eq_space=rng.choice(['', ' ', '   ']), wrap_rhs=rng.random() < 0.3, comment=rng.random() < 0.3,
+                  eq_space=rng.choice(['', ' ', '   ']), wrap_rhs=rng.random() < 0.3, inner_blank=rng.random() < 0.4,
+                  comment=rng.random() < 0.3,
                   blank_lines=rng.choice([0, 0, 1, 2]), vary=rng.random() < 0.5)
 
 
@@ -154,6 +157,7 @@ LAYOUT_CATALOGUE = {
     'call_space': dict(call_space=' '),
     'paren_space': dict(paren_space=' '),
     'wrapped': dict(wrap_rhs=True),
+    'wrapped_blank': dict(wrap_rhs=True, inner_blank=True),
     'comments': dict(comment=True, blank_lines=1),
     'blank_lines': dict(blank_lines=2),
 }
@@ -224,7 +228,16 @@ def render_expr(e, L: Layout, ctx=0, top_break=False):
         else:
             sp_l, sp_r = L.sp(L.op_space, ('', ' ', '  ')), L.sp(L.op_space, ('', ' ', '  '))
         if top_break:
-            sp_r = sp_r + '\n' + ' ' * (L.rng.choice([0, 4, 8]) if L.rng else 4)
+            sp_r = sp_r + '\n'
+            if L.inner_blank:
+                k = L.rng.randrange(4) if L.rng else 3
+                if k == 1:
+                    sp_r += '\n'
+                elif k == 2:
+                    sp_r += '   \t\n'
+                elif k == 3:
+                    sp_r += '    # ' + (L.rng.choice(COMMENTS) if L.rng else 'comment-only line') + '\n'
+            sp_r += ' ' * (L.rng.choice([0, 4, 8]) if L.rng else 4)
         s = l + sp_l + e.op + sp_r + r
     else:
         raise AssertionError(e)
@@ -484,13 +497,19 @@ def gen_term(rng, cfg, names):
     return Term('var', rng.choice(names['var']), gen_index(rng, cfg))
 
 
+# verbatim fragments: passed through untouched, so whitespace inside them (runs of spaces, spaces inside parentheses,
+# also inside string literals, where they change the value) must survive
+VERBS = ['2.5', '(1 + 1)', 'len(self.span)', "len('a  b')", "float(len('( x )'))", "len( 'p   q\tr' )",
+         "len('f (1)  ,  2')", "( 1  +  1 )"]
+
+
 def gen_expr(rng, cfg, names, depth):
     if depth <= 0 or rng.random() < 0.25:
         r = rng.random()
         if r < 0.2:
             return Num(rng.choice(NUMS))
         if cfg.allow_verbatim and r < 0.25:
-            return Verb(rng.choice(['2.5', '(1 + 1)', 'len(self.span)']))
+            return Verb(rng.choice(VERBS))
         return gen_term(rng, cfg, names)
     r = rng.random()
     if r < 0.55:
